@@ -1328,6 +1328,16 @@ func tamperCases(ctx context.Context, sc *Scenario, scid, tail, work string, i i
 			nd.Size++
 		}
 		err := st.Push(ctx, nd, bytes.NewReader(blob))
+		if err == nil && v.tag == "good" && benign(it.Tree) {
+			// the direct route Add -> Push (no manifest, no copy): restored differently?
+			if got, serr := snapshot(filepath.Join(dir, name)); serr != nil {
+				run.OracleFail(scid, "snapshot", serr.Error(), sc)
+			} else {
+				run.Count("direct-push-compared")
+				compareTrees(scid, name, sc, expectTree(it.Tree, uint32(sc.Umask), sc.Preserve), got,
+					func(id, sig, msg string) { run.OracleFail(id, "direct-"+sig, msg, sc) })
+			}
+		}
 		st.Close()
 		res := "OK"
 		if err != nil {
